@@ -31,6 +31,11 @@ def make_device(d, rng):
         latf = lambda n, line: lat[(n - 1) % len(lat)]  # noqa: E731
     else:
         latf = lambda n, line: 0.02  # noqa: E731
+    slow = d.pop("slow_cmd", None)
+    if slow:
+        # one command is answered much later than the others (a receiver busy with something else)
+        _base = latf
+        latf = lambda n, line, _b=_base, _s=slow: _b(n, line) + (_s["extra"] if line == _s["cmd"] else 0.0)  # noqa: E731
     chunk = d.pop("chunk", None)
     chunker = None
     if chunk:
